@@ -1097,16 +1097,85 @@ func ruleTimeoutParser(c *Ctx, r1, r2, r3 string) {
 			val = op
 		}
 	}
+	var mapTable map[int64]int64
 	if unit == nil {
-		c.fail(r1, name+": unit selected by a switch", w.At(mul), "the unit operand of the multiplication is "+desc(mul.Y)+", not a value selected per unit character")
-		return
+		// map-literal form: unit, ok := map[byte]time.Duration{...}[s[len(s)-1]]; if !ok { return 0, false }
+		for _, op := range []ssa.Value{mul.X, mul.Y} {
+			ex, isEx := op.(*ssa.Extract)
+			if !isEx || ex.Index != 0 {
+				continue
+			}
+			lk, isL := ex.Tuple.(*ssa.Lookup)
+			if !isL || !lk.CommaOk {
+				continue
+			}
+			mk, isMk := origin(lk.X).(*ssa.MakeMap)
+			if !isMk {
+				continue
+			}
+			tbl := map[int64]int64{}
+			good := true
+			for _, r := range *mk.Referrers() {
+				if mu, isMU := r.(*ssa.MapUpdate); isMU {
+					k, okK := constInt(mu.Key)
+					v, okV := constInt(mu.Value)
+					if !okK || !okV || !dominates(mu, lk) {
+						good = false
+					}
+					tbl[k] = v
+				}
+			}
+			// index = last character; product only when ok
+			okIdx := false
+			switch ix := lk.Index.(type) {
+			case *ssa.Index:
+				okIdx = ix.X == hdr
+			case *ssa.Lookup:
+				okIdx = ix.X == hdr
+			}
+			okGuard := false
+			for _, f := range boolFactsAt(mul) {
+				if e2, isE := f.V.(*ssa.Extract); isE && e2.Tuple == ssa.Value(lk) && e2.Index == 1 && f.True {
+					okGuard = true
+				}
+			}
+			if good && okIdx && okGuard {
+				mapTable = tbl
+				val = mul.X
+				if op == mul.X {
+					val = mul.Y
+				}
+			}
+		}
+		if mapTable == nil {
+			c.fail(r1, name+": unit selected by a switch", w.At(mul), "the unit operand of the multiplication is "+desc(mul.Y)+", not a value selected per unit character (switch/if chain or a constant map literal indexed by the last character and guarded by its ok result)")
+			return
+		}
 	}
 	want := map[int64]int64{'H': 3600000000000, 'M': 60000000000, 'S': 1000000000, 'm': 1000000, 'u': 1000, 'n': 1}
 	got := map[int64]int64{}
-	for i, e := range unit.Edges {
+	var unitV ssa.Value
+	var unitAt ssa.Instruction = mul
+	if unit != nil {
+		unitV, unitAt = unit, unit
+	} else {
+		for _, op := range []ssa.Value{mul.X, mul.Y} {
+			if op != val {
+				unitV = op
+			}
+		}
+		for k, v := range mapTable {
+			got[k] = v
+		}
+	}
+	var edges []ssa.Value
+	if unit != nil {
+		edges = unit.Edges
+	}
+	for i, e := range edges {
 		k, isK := constInt(e)
 		if !isK {
-			c.fail(r1, name+": unit value", w.At(unit), "a unit is "+desc(e)+", not a constant")
+			c.fail(r1, name+": unit value", w.At(unitAt), "a unit is "+desc(e)+", not a constant")
 			continue
 		}
 		pred := unit.Block().Preds[i]
@@ -1131,17 +1200,17 @@ func ruleTimeoutParser(c *Ctx, r1, r2, r3 string) {
 			}
 		}
 		if ch < 0 {
-			c.fail(r1, name+": unit character", w.At(unit), fmt.Sprintf("cannot determine which character selects the unit value %d", k))
+			c.fail(r1, name+": unit character", w.At(unitAt), fmt.Sprintf("cannot determine which character selects the unit value %d", k))
 			continue
 		}
 		got[ch] = k
 	}
 	for ch, v := range want {
-		c.check(got[ch] == v, r1, fmt.Sprintf("%s: unit %q", name, rune(ch)), w.At(unit), fmt.Sprintf("%q -> %d ns", rune(ch), got[ch]), fmt.Sprintf("unit %q maps to %d ns, the gRPC specification says %d ns", rune(ch), got[ch], v))
+		c.check(got[ch] == v, r1, fmt.Sprintf("%s: unit %q", name, rune(ch)), w.At(unitAt), fmt.Sprintf("%q -> %d ns", rune(ch), got[ch]), fmt.Sprintf("unit %q maps to %d ns, the gRPC specification says %d ns", rune(ch), got[ch], v))
 	}
 	for ch := range got {
 		if _, ok := want[ch]; !ok {
-			c.fail(r1, fmt.Sprintf("%s: unit %q", name, rune(ch)), w.At(unit), fmt.Sprintf("%q is accepted as a unit, the specification has no such unit", rune(ch)))
+			c.fail(r1, fmt.Sprintf("%s: unit %q", name, rune(ch)), w.At(unitAt), fmt.Sprintf("%q is accepted as a unit, the specification has no such unit", rune(ch)))
 		}
 	}
 	// the unit character is the last byte
@@ -1167,7 +1236,7 @@ func ruleTimeoutParser(c *Ctx, r1, r2, r3 string) {
 			}
 		}
 	})
-	c.check(okLast, r1, name+": unit is the last character", w.At(unit), "s[len(s)-1]", "the unit is not taken from the last character of the header")
+	c.check(okLast, r1, name+": unit is the last character", w.At(unitAt), "s[len(s)-1]", "the unit is not taken from the last character of the header")
 	// ---- r3: parse
 	var parse *ssa.Call
 	allInstrs(fn, func(in ssa.Instruction) {
@@ -1277,7 +1346,7 @@ func ruleTimeoutParser(c *Ctx, r1, r2, r3 string) {
 		if cv, ok := yv.(*ssa.Convert); ok {
 			yv = cv.X
 		}
-		if q, ok := yv.(*ssa.BinOp); ok && q.Op == token.QUO && q.Y == ssa.Value(unit) {
+		if q, ok := yv.(*ssa.BinOp); ok && q.Op == token.QUO && q.Y == unitV {
 			if k, isK := constInt(q.X); isK && k == 9223372036854775807 {
 				guard = true
 				guardIf = ifOn(f.Cond)
@@ -1307,7 +1376,7 @@ func ruleTimeoutParser(c *Ctx, r1, r2, r3 string) {
 			pos = false
 		}
 	}
-	c.check(pos && len(got) > 0, r2, name+": units are positive", w.At(unit), "all unit constants > 0", "a unit constant is not positive: division by zero or a negated duration")
+	c.check(pos && len(got) > 0, r2, name+": units are positive", w.At(unitAt), "all unit constants > 0", "a unit constant is not positive: division by zero or a negated duration")
 }
 
 // isAppendOfParamCtx: v == metadata.AppendToOutgoingContext(<ctx parameter of fn>, ...)
